@@ -329,6 +329,58 @@ def step (e : Env) (line : String) : Env × String :=
           let out := [mean g, var g, minIn g none none c, maxIn g none none c] ++ ps.map (percentile g)
           (e, " ".intercalate (out.map showVal))
       | _, _, _ => bad
+  | ["views", r] =>
+    match e.get r with
+    | none => unbound
+    | some f => (e, showFrame f)
+  | "arraybin" :: op :: other :: rest =>
+    match parseBinOp op with
+    | none => bad
+    | some o =>
+      let (ms, tail) := (rest.takeWhile (· ≠ "/"), (rest.dropWhile (· ≠ "/")).drop 1)
+      match allSome (ms.map e.get) with
+      | none => unbound
+      | some fs =>
+        let others : Option (List St) :=
+          match other, tail with
+          | "scalar", [t] => (parseVal (t.drop 1).toString).map fun c => fs.map fun f => Stairs.const c f.closed
+          | "stairs", _ => fs.head?.map fun g => fs.map fun _ => g
+          | "array", _ => some fs.reverse
+          | _, _ => none
+        match others with
+        | none => bad
+        | some gs =>
+          let rs := (fs.zip gs).map fun (f, g) => binop o f g
+          let firstErr : Option Err := rs.findSome? fun r => match r with | .error er => some er | .ok _ => none
+          match firstErr with
+          | some er => (e, showErr er)
+          | none => (e, " ;; ".intercalate (rs.map fun r => match r with | .ok h => showFrame h | .error _ => ""))
+  | "arraysample" :: kind :: _n :: rest =>
+    let (ms, tail) := (rest.takeWhile (· ≠ "/"), (rest.dropWhile (· ≠ "/")).drop 1)
+    match allSome (ms.map e.get), allSome (tail.map parseRat) with
+    | some fs, some xs =>
+      let ev (f : St) (x : Rat) : Val :=
+        if kind == "sample" then f.sample x else if kind == "limitleft" then f.limit .left x else f.limit .right x
+      (e, " ".intercalate (fs.flatMap fun f => xs.map fun x => showVal (ev f x)))
+    | none, _ => unbound
+    | _, _ => bad
+  | "covm" :: which :: lo :: hi :: ms =>
+    match allSome (ms.map e.get), parseOptPt lo, parseOptPt hi with
+    | some fs, some lo, some hi =>
+      let n := fs.length
+      let pairs := (List.range n).flatMap fun i => ((List.range n).filter fun j => if which == "cov" then i ≤ j else i < j).map fun j => (i, j)
+      let out := pairs.map fun (i, j) =>
+        match fs[i]?, fs[j]? with
+        | some f, some g =>
+          if which == "cov" then
+            match cov f g lo hi 0 true with | .ok v => showVal v | .error _ => "err"
+          else
+            match corrParts f g lo hi 0 true with
+            | .ok (c, vf, vg) => s!"{showVal c},{showVal vf},{showVal vg}" | .error _ => "err"
+        | _, _ => "err"
+      (e, " ".intercalate out)
+    | none, _, _ => unbound
+    | _, _, _ => bad
   | ["frame", r] =>
     match e.get r with
     | none => unbound
